@@ -13,6 +13,7 @@ type traversePreferences struct {
 	DontAutoCreate       bool // by default, we automatically create entries on the fly.
 	DontIncludeMapValues bool
 	OptionalTraverse     bool // e.g. .adf?
+	ExactKeyMatch        bool // the key is data, not a pattern: * and ? in it stand for themselves
 }
 
 func splat(context Context, prefs traversePreferences) (Context, error) {
@@ -319,7 +320,7 @@ func doTraverseMap(newMatches *orderedmap.OrderedMap, node *CandidateNode, wante
 			if err != nil {
 				return err
 			}
-		} else if splat || keyMatches(key, wantedKey) {
+		} else if splat || (prefs.ExactKeyMatch && key.Value == wantedKey) || (!prefs.ExactKeyMatch && keyMatches(key, wantedKey)) {
 			log.Debug("MATCHED")
 			if prefs.IncludeMapKeys {
 				log.Debug("including key")
